@@ -295,7 +295,7 @@ impl Registry {
                         }
 
                         for tag in &arg.tags {
-                            write!(sdl, " @tag(name: \"{}\")", tag.replace('"', "\\\"")).ok();
+                            write!(sdl, " @tag(name: \"{}\")", escape_string(tag)).ok();
                         }
                     }
 
@@ -335,7 +335,7 @@ impl Registry {
                     write!(sdl, " @inaccessible").ok();
                 }
                 for tag in &field.tags {
-                    write!(sdl, " @tag(name: \"{}\")", tag.replace('"', "\\\"")).ok();
+                    write!(sdl, " @tag(name: \"{}\")", escape_string(tag)).ok();
                 }
                 if let Some(from) = &field.override_from {
                     write!(sdl, " @override(from: \"{}\")", from).ok();
@@ -378,7 +378,7 @@ impl Registry {
                         write!(
                             sdl,
                             " @specifiedBy(url: \"{}\")",
-                            specified_by_url.replace('"', "\\\"")
+                            escape_string(specified_by_url)
                         )
                         .ok();
                     }
@@ -388,7 +388,7 @@ impl Registry {
                             write!(sdl, " @inaccessible").ok();
                         }
                         for tag in tags {
-                            write!(sdl, " @tag(name: \"{}\")", tag.replace('"', "\\\"")).ok();
+                            write!(sdl, " @tag(name: \"{}\")", escape_string(tag)).ok();
                         }
                         if !requires_scopes.is_empty() {
                             write_requires_scopes(sdl, requires_scopes);
@@ -482,7 +482,7 @@ impl Registry {
                     }
 
                     for tag in tags {
-                        write!(sdl, " @tag(name: \"{}\")", tag.replace('"', "\\\"")).ok();
+                        write!(sdl, " @tag(name: \"{}\")", escape_string(tag)).ok();
                     }
 
                     if !requires_scopes.is_empty() {
@@ -530,7 +530,7 @@ impl Registry {
                     }
 
                     for tag in tags {
-                        write!(sdl, " @tag(name: \"{}\")", tag.replace('"', "\\\"")).ok();
+                        write!(sdl, " @tag(name: \"{}\")", escape_string(tag)).ok();
                     }
 
                     if !requires_scopes.is_empty() {
@@ -566,7 +566,7 @@ impl Registry {
                         write!(sdl, " @inaccessible").ok();
                     }
                     for tag in tags {
-                        write!(sdl, " @tag(name: \"{}\")", tag.replace('"', "\\\"")).ok();
+                        write!(sdl, " @tag(name: \"{}\")", escape_string(tag)).ok();
                     }
 
                     if !requires_scopes.is_empty() {
@@ -598,7 +598,7 @@ impl Registry {
                         }
 
                         for tag in &value.tags {
-                            write!(sdl, " @tag(name: \"{}\")", tag.replace('"', "\\\"")).ok();
+                            write!(sdl, " @tag(name: \"{}\")", escape_string(tag)).ok();
                         }
                     }
 
@@ -635,7 +635,7 @@ impl Registry {
                         write!(sdl, " @inaccessible").ok();
                     }
                     for tag in tags {
-                        write!(sdl, " @tag(name: \"{}\")", tag.replace('"', "\\\"")).ok();
+                        write!(sdl, " @tag(name: \"{}\")", escape_string(tag)).ok();
                     }
                 }
 
@@ -661,7 +661,7 @@ impl Registry {
                             write!(sdl, " @inaccessible").ok();
                         }
                         for tag in &field.tags {
-                            write!(sdl, " @tag(name: \"{}\")", tag.replace('"', "\\\"")).ok();
+                            write!(sdl, " @tag(name: \"{}\")", escape_string(tag)).ok();
                         }
                     }
                     for directive in &field.directive_invocations {
@@ -691,7 +691,7 @@ impl Registry {
                         write!(sdl, " @inaccessible").ok();
                     }
                     for tag in tags {
-                        write!(sdl, " @tag(name: \"{}\")", tag.replace('"', "\\\"")).ok();
+                        write!(sdl, " @tag(name: \"{}\")", escape_string(tag)).ok();
                     }
                 }
 
@@ -739,13 +739,33 @@ pub(super) fn write_description(
 ) {
     let tabs = tab(options).repeat(level);
 
-    if options.prefer_single_line_descriptions && !description.contains('\n') {
-        let description = description.replace('"', r#"\""#);
+    if (options.prefer_single_line_descriptions && !description.contains('\n'))
+        || !is_block_printable(description)
+    {
+        let description = escape_string(description);
         writeln!(sdl, "{tabs}\"{description}\"").ok();
     } else {
         let description = description.replace('\n', &format!("\n{tabs}"));
         writeln!(sdl, "{tabs}\"\"\"\n{tabs}{description}\n{tabs}\"\"\"").ok();
     }
+}
+
+/// Whether `BlockStringValue` gives the text back when it is written between
+/// `"""` lines with every line indented alike: no `"""`, no carriage return,
+/// the first line starts with a non-blank character, the last line is not
+/// blank. Other descriptions are written as quoted strings.
+fn is_block_printable(description: &str) -> bool {
+    let is_blank = |c: char| c == ' ' || c == '\t';
+    !description.contains("\"\"\"")
+        && !description.contains('\r')
+        && description
+            .chars()
+            .next()
+            .is_some_and(|c| !is_blank(c) && c != '\n')
+        && description
+            .rsplit('\n')
+            .next()
+            .is_some_and(|line| !line.chars().all(is_blank))
 }
 
 fn write_input_value(sdl: &mut String, input_value: &MetaInputValue) {
@@ -797,6 +817,7 @@ fn escape_string(s: &str) -> String {
     for c in s.chars() {
         let ec = match c {
             '\\' => Some("\\\\"),
+            '"' => Some("\\\""),
             '\x08' => Some("\\b"),
             '\x0c' => Some("\\f"),
             '\n' => Some("\\n"),
